@@ -14,7 +14,7 @@ From Coq Require Import Lia ZifyBool.
 From PJ.Model Require Import Base Terms Encoder Streams Decoder Spec Api.
 From PJ.Proofs Require Import DecoderProofs DecoderSound EncStream RoundTrip EncNamespace EncNamespace2 EncGraphs WireRT SpecWf BytesE2E.
 From PJ.Tie Require Import PyPrims StrN OptionsTie EncodeTie EncodeStmtTie FlowsTie StreamsTie DecodeTie DecoderBase DecoderTie GenericTerms GenericParseTie GenericSerializeTie GenericRoundTrip GenericDriversTie.
-From PJ.Gen Require Import LookupEncGen LookupDecGen OptionsGen EncodeGen DecodeGen StreamsGen GenericSinkGen GenericParseGen.
+From PJ.Gen Require Import LookupEncGen LookupDecGen OptionsGen EncodeGen FlowsGen DecodeGen StreamsGen GenericSinkGen GenericParseGen.
 From PJ.Gen Require GenericSerializeGen.
 Local Open Scope Z_scope.
 
@@ -109,7 +109,115 @@ Proof.
   exists po. split; [exists (emitted evs), sk, first, more; split; [reflexivity | split; assumption] | exact H3].
 Qed.
 
+(* ------------------------------------------------------------------ C06 on translated source: when a translated driver ends without
+   raising, the flow of the stream it leaves holds no row (nothing accepted is left unwritten) *)
+From PJ.Proofs Require Import FlowProofs EncoderProofs.
+
+Lemma flow_empty_of_Rs (g : GStream) (m : stream) : gRs g m -> fl_rows (st_flow m) = [] -> FrameFlow_data (Stream_flow SN g) = [].
+Proof. intros (_ & _ & _ & _ & (_ & Hd & _) & _) He. rewrite Hd, He. reflexivity. Qed.
+
+Theorem C06_source_generic_nothing_left_behind :
+  forall (s : stream) (gs gs' : GStream) (k k' : GenericStatementSink SN) (d : sdata) (ys : list (pbval str)),
+    gRs gs s -> Rd k d ->
+    (st_class s = TripleStream /\ Forall stmt_ok (d_stmts d) /\ GenericSerializeGen.triples_stream_frames SN gs k = (Val tt, gs', k', ys)) \/
+    (st_class s = QuadStream /\ Forall stmt_ok (d_stmts d) /\ GenericSerializeGen.quads_stream_frames SN gs k = (Val tt, gs', k', ys)) \/
+    (st_class s = GraphStream /\ Forall quad_ok (d_stmts d) /\ GenericSerializeGen.graphs_stream_frames SN gs k = (Val tt, gs', k', ys)) ->
+    FrameFlow_data (Stream_flow SN gs') = [].
+Proof.
+  intros s gs gs' k k' d ys HR HRd [(Hc & Hok & Hrun) | [(Hc & Hok & Hrun) | (Hc & Hok & Hrun)]].
+  - pose proof (source_triples_stream_frames_is_model k d gs s HRd Hok HR ltac:(rewrite Hc; discriminate)) as H. rewrite Hrun in H.
+    destruct (Streams.triples_stream_frames d s) as [s' evs] eqn:Em. destruct H as (HR' & _ & _ & Hends).
+    apply (flow_empty_of_Rs gs' s' HR'). apply (stream_frames_flushes d s s' evs); [unfold stream_frames; rewrite Hc; exact Em | exact (ends_val _ Hends)].
+  - pose proof (source_quads_stream_frames_is_model k d gs s HRd Hok HR Hc) as H. rewrite Hrun in H.
+    destruct (Streams.quads_stream_frames d s) as [s' evs] eqn:Em. destruct H as (HR' & _ & _ & Hends).
+    apply (flow_empty_of_Rs gs' s' HR'). apply (stream_frames_flushes d s s' evs); [unfold stream_frames; rewrite Hc; exact Em | exact (ends_val _ Hends)].
+  - pose proof (source_graphs_stream_frames_is_model k d gs s HRd Hok HR Hc) as H. rewrite Hrun in H.
+    destruct (Streams.graphs_stream_frames_generic d s) as [s' evs] eqn:Em. destruct H as (HR' & _ & _ & Hends).
+    apply (flow_empty_of_Rs gs' s' HR'). apply (stream_frames_flushes d s s' evs); [unfold stream_frames; rewrite Hc; exact Em | exact (ends_val _ Hends)].
+Qed.
+
 Print Assumptions constructed_stream_is_related.
+Print Assumptions C06_source_generic_nothing_left_behind.
+(* ------------------------------------------------------------------ C03 / C19 on the frames a translated driver yields: they are the message
+   objects of frames that the referee reads as exactly the declarations and statements (C03) and whose audit is clean (C19: nothing
+   redundant, no missed elision, zero form or repeated graph start) -- for the three drivers at once *)
+From PJ.Model Require Import Audit.
+From PJ.Proofs Require Import AuditBase AudStmt AudStream.
+
+Definition driver_run (c : stream_class) (gs gs' : GStream) (k k' : GenericStatementSink SN) (ys : list (pbval str)) : Prop :=
+  match c with
+  | TripleStream => GenericSerializeGen.triples_stream_frames SN gs k = (Val tt, gs', k', ys)
+  | QuadStream => GenericSerializeGen.quads_stream_frames SN gs k = (Val tt, gs', k', ys)
+  | GraphStream => GenericSerializeGen.graphs_stream_frames SN gs k = (Val tt, gs', k', ys)
+  end.
+
+Definition stmts_shape (c : stream_class) (d : sdata) : Prop :=
+  match c with GraphStream => Forall quad_ok (d_stmts d) | _ => Forall stmt_ok (d_stmts d) end.
+
+Definition events_of (c : stream_class) (d : sdata) : list event :=
+  match c with TripleStream => flat_map event_of_triple (d_stmts d) | _ => flat_map event_of_quad (d_stmts d) end.
+
+Lemma class_of_new c o s : stream_new c Generic o = Ok s -> st_class s = c.
+Proof.
+  unfold stream_new. destruct (negb _); [discriminate|]. destruct (match so_flow o with Some f => Ok f | None => infer_flow c o end); [|discriminate].
+  cbn [bind]. destruct (negb _); [discriminate|]. intros [= <-]. reflexivity.
+Qed.
+
+(* the model run behind a run of a translated driver that ended normally *)
+Lemma driver_is_model_run c o s gs gs' k k' d ys :
+  stream_new c Generic o = Ok s -> gRs gs s -> Rd k d -> stmts_shape c d -> driver_run c gs gs' k k' ys ->
+  exists s' evs, stream_frames d s = (s', evs) /\ raised evs = None /\ ys = map (frame_msg (rmsg gput)) (emitted evs) /\
+    match c with
+    | TripleStream => Streams.triples_stream_frames d s = (s', evs)
+    | QuadStream => Streams.quads_stream_frames d s = (s', evs)
+    | GraphStream => Streams.graphs_stream_frames_generic d s = (s', evs)
+    end.
+Proof.
+  intros Hnew HR HRd Hok Hrun. pose proof (class_of_new c o s Hnew) as Hc. unfold stream_frames. rewrite Hc.
+  destruct c; cbn [driver_run stmts_shape] in *.
+  - pose proof (source_triples_stream_frames_is_model k d gs s HRd Hok HR ltac:(rewrite Hc; discriminate)) as H. rewrite Hrun in H.
+    destruct (Streams.triples_stream_frames d s) as [s' evs]. destruct H as (_ & _ & -> & Hends).
+    exists s', evs. split; [reflexivity|]. split; [exact (ends_val _ Hends)|]. split; reflexivity.
+  - pose proof (source_quads_stream_frames_is_model k d gs s HRd Hok HR Hc) as H. rewrite Hrun in H.
+    destruct (Streams.quads_stream_frames d s) as [s' evs]. destruct H as (_ & _ & -> & Hends).
+    exists s', evs. split; [reflexivity|]. split; [exact (ends_val _ Hends)|]. split; reflexivity.
+  - pose proof (source_graphs_stream_frames_is_model k d gs s HRd Hok HR Hc) as H. rewrite Hrun in H.
+    destruct (Streams.graphs_stream_frames_generic d s) as [s' evs]. destruct H as (_ & _ & -> & Hends).
+    exists s', evs. split; [reflexivity|]. split; [exact (ends_val _ Hends)|]. split; reflexivity.
+Qed.
+
+Theorem C03_source_generic_drivers_write_valid_streams :
+  forall (c : stream_class) (o : soptions) (s : stream) (gs gs' : GStream) (k k' : GenericStatementSink SN) (d : sdata) (ys : list (pbval str)),
+    stream_new c Generic o = Ok s -> cfg_ok o (st_logical s) -> fl_rows (st_flow s) = [] ->
+    gRs gs s -> Rd k d -> stmts_shape c d -> driver_run c gs gs' k k' ys ->
+    exists fs, ys = map (frame_msg (rmsg gput)) fs /\ run_frames fs = Valid (ns_events o d ++ events_of c d).
+Proof.
+  intros c o s gs gs' k k' d ys Hnew Hcfg Hfresh HR HRd Hok Hrun.
+  destruct (driver_is_model_run c o s gs gs' k k' d ys Hnew HR HRd Hok Hrun) as (s' & evs & _ & Hr & -> & Hm).
+  exists (emitted evs). split; [reflexivity|]. unfold run_frames. destruct c; cbn [events_of].
+  - exact (triples_stream_valid_ns o s s' d evs Hnew Hcfg Hfresh Hm Hr).
+  - exact (quads_stream_valid_ns o s s' d evs Hnew Hcfg Hfresh Hm Hr).
+  - exact (graphs_stream_valid_ns o s s' d evs Hnew Hcfg Hfresh (quad_ok_wf _ Hok) Hm Hr).
+Qed.
+
+Theorem C19_source_generic_drivers_audit_clean :
+  forall (c : stream_class) (o : soptions) (s : stream) (gs gs' : GStream) (k k' : GenericStatementSink SN) (d : sdata) (ys : list (pbval str)),
+    stream_new c Generic o = Ok s -> cfg_ok o (st_logical s) -> fl_rows (st_flow s) = [] -> stmts_nrm (d_stmts d) ->
+    gRs gs s -> Rd k d -> stmts_shape c d -> driver_run c gs gs' k k' ys ->
+    exists fs cnt, ys = map (frame_msg (rmsg gput)) fs /\ audit (flat_map f_rows fs) = Some cnt /\ clean cnt.
+Proof.
+  intros c o s gs gs' k k' d ys Hnew Hcfg Hfresh Hnrm HR HRd Hok Hrun.
+  destruct (driver_is_model_run c o s gs gs' k k' d ys Hnew HR HRd Hok Hrun) as (s' & evs & _ & Hr & -> & Hm).
+  assert (Hc : exists cnt, audit (flat_map f_rows (emitted evs)) = Some cnt /\ clean cnt).
+  { destruct c.
+    - exact (triples_stream_clean o s s' d evs Hnew Hcfg Hfresh Hnrm Hm Hr).
+    - exact (quads_stream_clean o s s' d evs Hnew Hcfg Hfresh Hnrm Hm Hr).
+    - exact (graphs_stream_clean o s s' d evs Hnew Hcfg Hfresh Hnrm Hm Hr). }
+  destruct Hc as (cnt & Ha & Hcl). exists (emitted evs), cnt. split; [reflexivity|]. split; assumption.
+Qed.
+
+Print Assumptions C03_source_generic_drivers_write_valid_streams.
+Print Assumptions C19_source_generic_drivers_audit_clean.
 Print Assumptions C01_end_to_end_generic_triples.
 Print Assumptions C01_end_to_end_generic_quads.
 Print Assumptions C01_end_to_end_generic_graphs.
